@@ -1,1 +1,1736 @@
 //! Kani harnesses compiled as a child module of rustzx-core/src/zx/tape/tap.rs (cfg(kani) only).
+//! Property C11: a playing tape presents each TAP block as the standard loader waveform.
+//! Property C12: play / stop / rewind behave like a cassette deck.
+//! Property C10 (part 3): `next_block` / `next_block_byte` stream exactly the block's bytes.
+//! Property C15 (tape part): none of this panics / overflows for any tape bytes.
+#![allow(dead_code)]
+use super::*;
+use crate::host::BufferCursor;
+use crate::verif_hooks::VBuf;
+
+pub(crate) type VTap = Tap<BufferCursor<VBuf>>;
+
+// ---- specification constants (from the property statement, not from the code) ----------------
+const S_PILOT: usize = 2168;
+const S_PULSES_HEADER: usize = 8063;
+const S_PULSES_DATA: usize = 3223;
+const S_SYNC1: usize = 667;
+const S_SYNC2: usize = 735;
+const S_ZERO: usize = 855;
+const S_ONE: usize = 1710;
+const S_PAUSE: usize = 3_500_000;
+/// largest bus-wait step of the quantifier ("steps of 1..16 T-states")
+const S_STEP: usize = 16;
+
+fn spec_bit_len(byte: u8, mask: u8) -> usize {
+    if byte & mask != 0 {
+        S_ONE
+    } else {
+        S_ZERO
+    }
+}
+
+fn spec_pilot_pulses(flag: u8) -> usize {
+    if flag == 0x00 {
+        S_PULSES_HEADER
+    } else {
+        S_PULSES_DATA
+    }
+}
+
+// ---- symbolic pre-states ----------------------------------------------------------------------
+
+/// Asset that only counts how often it is touched (asset-free harnesses: the counts must stay 0).
+pub(crate) struct ProbeAsset {
+    pub reads: usize,
+    pub seeks: usize,
+}
+
+impl LoadableAsset for ProbeAsset {
+    fn read(&mut self, _buf: &mut [u8]) -> core::result::Result<usize, crate::error::IoError> {
+        self.reads += 1;
+        Err(crate::error::IoError::UnexpectedEof)
+    }
+}
+
+impl SeekableAsset for ProbeAsset {
+    fn seek(&mut self, _pos: SeekFrom) -> core::result::Result<usize, crate::error::IoError> {
+        self.seeks += 1;
+        Ok(0)
+    }
+}
+
+/// stream position / touch count of an asset, for "nothing consumed" comparisons
+pub(crate) trait AssetFp {
+    fn fp(&mut self) -> usize;
+}
+
+impl<T: AsRef<[u8]>> AssetFp for BufferCursor<T> {
+    fn fp(&mut self) -> usize {
+        match self.seek(SeekFrom::Current(0)) {
+            Ok(p) => p,
+            Err(_) => usize::MAX,
+        }
+    }
+}
+
+impl AssetFp for ProbeAsset {
+    fn fp(&mut self) -> usize {
+        self.reads * 4096 + self.seeks
+    }
+}
+
+pub(crate) type PTap = Tap<ProbeAsset>;
+
+fn any_mask() -> u8 {
+    let k: u8 = kani::any();
+    kani::assume(k < 8);
+    1u8 << k
+}
+
+pub(crate) const K_STOP: u8 = 0;
+pub(crate) const K_PLAY: u8 = 1;
+pub(crate) const K_PILOT: u8 = 2;
+pub(crate) const K_SYNC: u8 = 3;
+pub(crate) const K_NEXT_BYTE: u8 = 4;
+pub(crate) const K_NEXT_BIT: u8 = 5;
+pub(crate) const K_BIT_HALF: u8 = 6;
+pub(crate) const K_PAUSE: u8 = 7;
+
+/// any TapeState of the given variant, payload unrestricted.  Harnesses pass `kind` as a
+/// constant so that the solver encodes only the branch of the state machine that is taken.
+fn state_of_kind(kind: u8) -> TapeState {
+    match kind {
+        K_STOP => TapeState::Stop,
+        K_PLAY => TapeState::Play,
+        K_PILOT => TapeState::Pilot { pulses_left: kani::any() },
+        K_SYNC => TapeState::Sync,
+        K_NEXT_BYTE => TapeState::NextByte,
+        K_NEXT_BIT => TapeState::NextBit { mask: kani::any() },
+        K_BIT_HALF => TapeState::BitHalf { half_bit_delay: kani::any(), mask: kani::any() },
+        _ => TapeState::Pause,
+    }
+}
+
+fn any_kind() -> u8 {
+    let k: u8 = kani::any();
+    kani::assume(k < 8);
+    k
+}
+
+/// any TapeState value at all
+fn any_raw_state() -> TapeState {
+    state_of_kind(any_kind())
+}
+
+/// Representation invariant of a generator state (what `process_clocks` itself establishes):
+/// pilot counters are 1..=8063, bit masks are one-hot, the second half of a bit has the length
+/// of the bit being sent.
+fn inv_shape(s: TapeState, byte: u8) -> bool {
+    match s {
+        TapeState::Pilot { pulses_left } => pulses_left >= 1 && pulses_left <= S_PULSES_HEADER,
+        TapeState::NextBit { mask } => mask.count_ones() == 1,
+        TapeState::BitHalf { half_bit_delay, mask } => {
+            mask.count_ones() == 1 && half_bit_delay == spec_bit_len(byte, mask)
+        }
+        _ => true,
+    }
+}
+
+/// a saved state (prev_state) was a valid generator state when it was saved; its BitHalf length
+/// need not match the byte any more
+fn inv_shape_saved(s: TapeState) -> bool {
+    match s {
+        TapeState::Pilot { pulses_left } => pulses_left >= 1 && pulses_left <= S_PULSES_HEADER,
+        TapeState::NextBit { mask } => mask.count_ones() == 1,
+        TapeState::BitHalf { half_bit_delay, mask } => {
+            mask.count_ones() == 1 && (half_bit_delay == S_ZERO || half_bit_delay == S_ONE)
+        }
+        _ => true,
+    }
+}
+
+fn cursor(buf: VBuf, pos: usize) -> BufferCursor<VBuf> {
+    let mut c = BufferCursor::new(buf);
+    let _ = c.seek(SeekFrom::Start(pos));
+    c
+}
+
+fn any_vbuf(max_len: usize) -> VBuf {
+    let b = VBuf { data: kani::any(), len: kani::any() };
+    kani::assume(b.len <= max_len && b.len <= 24);
+    b
+}
+
+/// A tape on `asset` in a state of variant `kind`; every other field arbitrary.
+fn any_tap_with<A: LoadableAsset + SeekableAsset>(asset: A, kind: u8) -> Tap<A> {
+    Tap {
+        asset,
+        state: state_of_kind(kind),
+        prev_state: any_raw_state(),
+        buffer: kani::any(),
+        buffer_offset: kani::any(),
+        block_bytes_read: kani::any(),
+        current_block_size: kani::any(),
+        tape_ended: kani::any(),
+        curr_bit: kani::any(),
+        curr_byte: kani::any(),
+        delay: kani::any(),
+    }
+}
+
+fn any_probe_tap(kind: u8) -> PTap {
+    any_tap_with(ProbeAsset { reads: 0, seeks: 0 }, kind)
+}
+
+/// Everything observable of a tape (buffer through one witness index).
+#[derive(Clone, Copy, PartialEq, Eq)]
+pub(crate) struct Snap {
+    pub state: TapeState,
+    pub prev: TapeState,
+    pub level: bool,
+    pub byte: u8,
+    pub delay: usize,
+    pub pos: usize,
+    pub bbr: usize,
+    pub boff: usize,
+    pub cbs: Option<usize>,
+    pub ended: bool,
+    pub bufw: u8,
+}
+
+pub(crate) fn snap<A: LoadableAsset + SeekableAsset + AssetFp>(t: &mut Tap<A>, w: usize) -> Snap {
+    Snap {
+        state: t.state,
+        prev: t.prev_state,
+        level: t.curr_bit,
+        byte: t.curr_byte,
+        delay: t.delay,
+        pos: t.asset.fp(),
+        bbr: t.block_bytes_read,
+        boff: t.buffer_offset,
+        cbs: t.current_block_size,
+        ended: t.tape_ended,
+        bufw: t.buffer[w],
+    }
+}
+
+/// same generator + stream state, ignoring `prev_state`
+pub(crate) fn same_generator(a: &Snap, b: &Snap) -> bool {
+    a.state == b.state
+        && a.level == b.level
+        && a.byte == b.byte
+        && a.delay == b.delay
+        && a.pos == b.pos
+        && a.bbr == b.bbr
+        && a.boff == b.boff
+        && a.cbs == b.cbs
+        && a.ended == b.ended
+        && a.bufw == b.bufw
+}
+
+fn any_witness() -> usize {
+    let w: usize = kani::any();
+    kani::assume(w < BUFFER_SIZE);
+    w
+}
+
+fn any_step() -> usize {
+    let c: usize = kani::any();
+    kani::assume(c >= 1 && c <= S_STEP);
+    c
+}
+
+// =================================================================================================
+// C11 (1) countdown
+// =================================================================================================
+
+fn countdown_case(kind: u8) {
+    let mut t = any_probe_tap(kind);
+    kani::assume(t.delay > 0);
+    let w = any_witness();
+    let c = any_step();
+    let pre = snap(&mut t, w);
+    let r = t.process_clocks(c);
+    let post = snap(&mut t, w);
+    kani::assert(r.is_ok(), "c11.countdown.ok");
+    let expect = if pre.delay > c { pre.delay - c } else { 0 };
+    kani::assert(post.delay == expect, "c11.countdown.delay_is_max0_delay_minus_c");
+    kani::assert(post.level == pre.level, "c11.countdown.no_edge_before_nominal");
+    let mut pre_d = pre;
+    pre_d.delay = post.delay;
+    kani::assert(pre_d == post, "c11.countdown.nothing_else_changes");
+    kani::assert(post.pos == 0, "c11.countdown.asset_not_touched");
+    kani::cover!(pre.delay > c, "pulse continues");
+    kani::cover!(pre.delay == c, "pulse ends exactly");
+    kani::cover!(pre.delay < c, "pulse overshoots");
+}
+
+// @harness
+// @prop C11
+// @tier quick
+// @timeout 300
+// @fn Tap::process_clocks
+// @sym every field of the Tap (each of the 7 non-Stop state variants with any payload, prev_state, delay > 0 any usize, level, byte, all stream fields, buffer via witness index), step c in 1..=16
+// @assert while a pulse is in progress (delay > 0) a step changes nothing but delay, which becomes max(0, delay - c): no edge before the nominal length has elapsed, asset neither read nor repositioned
+// @bound single call per state variant; state-machine loop unreachable (unwind 2 only closes it)
+// @outside steps of 0 or more than 16 T-states
+#[kani::proof]
+#[kani::unwind(2)]
+fn c11_countdown() {
+    countdown_case(K_PLAY);
+    countdown_case(K_PILOT);
+    countdown_case(K_SYNC);
+    countdown_case(K_NEXT_BYTE);
+    countdown_case(K_NEXT_BIT);
+    countdown_case(K_BIT_HALF);
+    countdown_case(K_PAUSE);
+}
+
+// =================================================================================================
+// C11 (2) transitions that do not touch the asset
+// =================================================================================================
+
+/// specification: table entry that follows the pulse ending in state `s` (asset-free states)
+fn spec_next_entry(s: TapeState, byte: u8) -> (usize, TapeState) {
+    match s {
+        TapeState::Pilot { pulses_left } => {
+            if pulses_left > 1 {
+                (S_PILOT, TapeState::Pilot { pulses_left: pulses_left - 1 })
+            } else {
+                (S_SYNC1, TapeState::Sync)
+            }
+        }
+        TapeState::Sync => (S_SYNC2, TapeState::NextBit { mask: 0x80 }),
+        TapeState::NextBit { mask } => {
+            let l = spec_bit_len(byte, mask);
+            (l, TapeState::BitHalf { half_bit_delay: l, mask })
+        }
+        TapeState::BitHalf { half_bit_delay, mask } => {
+            if mask == 0x01 {
+                (half_bit_delay, TapeState::NextByte)
+            } else {
+                (half_bit_delay, TapeState::NextBit { mask: mask >> 1 })
+            }
+        }
+        _ => (S_PAUSE, TapeState::Play),
+    }
+}
+
+fn transition_case(kind: u8) -> (Snap, Snap) {
+    let mut t = any_probe_tap(kind);
+    kani::assume(t.delay == 0);
+    kani::assume(inv_shape(t.state, t.curr_byte));
+    let w = any_witness();
+    let c = any_step();
+    let pre = snap(&mut t, w);
+    let r = t.process_clocks(c);
+    let post = snap(&mut t, w);
+    kani::assert(r.is_ok(), "c11.trans.ok");
+    kani::assert(post.level != pre.level, "c11.trans.edge");
+    let (len, next) = spec_next_entry(pre.state, pre.byte);
+    kani::assert(post.delay == len, "c11.trans.pulse_length");
+    kani::assert(post.state == next, "c11.trans.next_entry");
+    kani::assert(inv_shape(post.state, post.byte), "c11.trans.inv_preserved");
+    let mut exp = pre;
+    exp.level = post.level;
+    exp.delay = post.delay;
+    exp.state = post.state;
+    kani::assert(exp == post, "c11.trans.nothing_else_changes");
+    kani::assert(post.pos == 0, "c11.trans.asset_not_touched");
+    (pre, post)
+}
+
+// @harness
+// @prop C11
+// @tier quick
+// @timeout 300
+// @fn Tap::process_clocks
+// @sym state in {Pilot n, Sync, NextBit mask, BitHalf(len, mask), Pause} under the shape invariant, delay = 0, level, byte, prev_state, all stream fields arbitrary, step c in 1..=16
+// @assert at the end of a pulse the next entry of the standard waveform starts: Pilot n -> edge, n-1 more pilot pulses of 2168 T or (n = 1) sync1 667 T; Sync -> edge, sync2 735 T, then bit 7 (mask 0x80); NextBit -> edge, 855 T if the bit is 0 else 1710 T; BitHalf -> edge, second pulse of the same length, then mask >> 1 or the next byte; Pause -> edge, 3 500 000 T, then the next block.  Byte, stream position, asset and prev_state untouched; shape invariant preserved
+// @bound single call per variant; the state-machine loop runs once (unwind 2)
+// @assume shape invariant inv_shape (pilot counter 1..=8063, one-hot masks, BitHalf length = length of the bit being sent); preserved by this harness and by c11_next_byte / c11_play_next_block
+// @outside Play and NextByte (asset-touching: c11_next_byte, c11_play_next_block)
+#[kani::proof]
+#[kani::unwind(2)]
+fn c11_transitions() {
+    let (p, q) = transition_case(K_PILOT);
+    kani::cover!(p.state == TapeState::Pilot { pulses_left: 1 } && q.state == TapeState::Sync, "last pilot pulse -> sync1");
+    kani::cover!(p.state == TapeState::Pilot { pulses_left: S_PULSES_HEADER }, "first pilot flip");
+    let (p, q) = transition_case(K_SYNC);
+    kani::cover!(q.delay == S_SYNC2 && p.level, "sync1 -> sync2");
+    let (p, q) = transition_case(K_NEXT_BIT);
+    kani::cover!(matches!(p.state, TapeState::NextBit { mask: 0x80 }) && q.delay == S_ONE, "msb one");
+    kani::cover!(matches!(p.state, TapeState::NextBit { mask: 0x01 }) && q.delay == S_ZERO, "lsb zero");
+    let (p, _q) = transition_case(K_BIT_HALF);
+    kani::cover!(matches!(p.state, TapeState::BitHalf { mask: 0x01, .. }), "last half bit -> next byte");
+    kani::cover!(matches!(p.state, TapeState::BitHalf { mask: 0x10, half_bit_delay: S_ONE }), "mid byte");
+    let (_p, q) = transition_case(K_PAUSE);
+    kani::cover!(q.state == TapeState::Play && q.delay == S_PAUSE, "pause");
+}
+
+// @harness
+// @prop C11
+// @tier quick
+// @expect vacuity
+// @timeout 300
+// @fn Tap::process_clocks
+// @bound reachability twin of c11_transitions
+#[kani::proof]
+#[kani::unwind(2)]
+fn c11_transitions_reach() {
+    let _ = transition_case(K_BIT_HALF);
+    kani::assert(false, "c11.reach");
+}
+
+// =================================================================================================
+// C11 (3) lateness: no pulse shorter than nominal, none more than 32 T longer
+// =================================================================================================
+
+fn lateness_case(kind: u8) {
+    let mut t = any_probe_tap(kind);
+    kani::assume(inv_shape(t.state, t.curr_byte));
+    let e: usize = kani::any();
+    let l: usize = kani::any();
+    kani::assume(l <= S_PAUSE && e <= S_PAUSE + 64);
+    let d = t.delay;
+    kani::assume(d <= S_PAUSE);
+    kani::assume((d > 0 && e + d == l) || (d == 0 && l <= e && e <= l + (S_STEP - 1)));
+    let c = any_step();
+    let level0 = t.curr_bit;
+    let r = t.process_clocks(c);
+    kani::assert(r.is_ok(), "c11.late.ok");
+    let mut e1 = e + c;
+    let mut l1 = l;
+    let edge = t.curr_bit != level0;
+    if d == 0 {
+        kani::assert(edge, "c11.late.edge_when_due");
+    }
+    if edge {
+        kani::assert(e1 >= l, "c11.late.never_shorter_than_nominal");
+        kani::assert(e1 <= l + 2 * S_STEP - 1, "c11.late.at_most_32T_longer");
+        e1 = 0;
+        l1 = t.delay;
+        kani::assert(t.delay > 0, "c11.late.new_pulse_has_length");
+    }
+    let d1 = t.delay;
+    kani::assert(
+        (d1 > 0 && e1 + d1 == l1) || (d1 == 0 && l1 <= e1 && e1 <= l1 + (S_STEP - 1)),
+        "c11.late.invariant_preserved",
+    );
+    kani::cover!(edge && e + c == l + 31, "latest possible edge");
+    kani::cover!(edge && e + c == l + 1, "earliest possible edge (one T late)");
+    kani::cover!(!edge && d1 == 0 && e1 == l1 + 15, "pulse end overshot by 15");
+    kani::cover!(!edge && d1 > 0, "mid pulse");
+}
+
+// @harness
+// @prop C11
+// @tier quick
+// @timeout 300
+// @fn Tap::process_clocks
+// @sym asset-free playing state (Pilot, Sync, NextBit, BitHalf, Pause) under the shape invariant, delay, ghost e = T-states since the last edge, ghost L = nominal length of the running pulse (= the delay loaded at its start, which c11_transitions / c11_next_byte / c11_play_next_block show to be the table length), step c in 1..=16
+// @assert step invariant (delay > 0 and e + delay = L) or (delay = 0 and L <= e <= L+15) is preserved; an edge only happens at L <= e <= L+31 (never shorter than nominal, at most 32 T longer) and when delay = 0 the edge does happen in that very step; after the edge e = 0 and the invariant holds for the new pulse
+// @bound single step from an arbitrary invariant state = induction over any number of steps and any partition of time into steps of 1..16 T
+// @assume shape invariant; ghost invariant as stated (holds after every edge: e = 0, delay = L)
+// @outside steps longer than 16 T (the machine issues at most 8 at a time); NextByte/Play steps (same argument; c11_next_byte / c11_play_next_block assert the edge in the same call)
+#[kani::proof]
+#[kani::unwind(2)]
+fn c11_lateness_step() {
+    lateness_case(K_PILOT);
+    lateness_case(K_SYNC);
+    lateness_case(K_NEXT_BIT);
+    lateness_case(K_BIT_HALF);
+    lateness_case(K_PAUSE);
+}
+
+// =================================================================================================
+// C12 lemmas on the deck commands
+// =================================================================================================
+
+// @harness
+// @prop C12
+// @tier quick
+// @timeout 300
+// @fn Tap::process_clocks; Tap::current_bit; Tap::can_fast_load
+// @sym stopped deck with every other field arbitrary (saved state, delay, level, byte, stream fields), step c any usize
+// @assert while stopped, advancing time changes nothing at all: EAR level frozen, delay frozen, nothing consumed (asset neither read nor repositioned, block position and buffer unchanged), saved state kept
+// @bound single call = any number of calls by induction (state unchanged)
+#[kani::proof]
+#[kani::unwind(2)]
+fn c12_stopped_is_frozen() {
+    let mut t = any_probe_tap(K_STOP);
+    let w = any_witness();
+    let c: usize = kani::any();
+    let pre = snap(&mut t, w);
+    let level = t.current_bit();
+    let r = t.process_clocks(c);
+    let post = snap(&mut t, w);
+    kani::assert(r.is_ok(), "c12.stopped.ok");
+    kani::assert(pre == post, "c12.stopped.nothing_changes_nothing_consumed");
+    kani::assert(post.pos == 0, "c12.stopped.asset_not_touched");
+    kani::assert(t.current_bit() == level, "c12.stopped.ear_frozen");
+    kani::assert(t.can_fast_load(), "c12.stopped.fast_load_possible");
+    kani::cover!(pre.delay > 0 && c > pre.delay, "time passes beyond the pending pulse");
+    kani::cover!(matches!(pre.prev, TapeState::BitHalf { .. }) && pre.level, "stopped mid byte, level high");
+}
+
+fn stop_play_case(kind: u8) -> Snap {
+    let mut t = any_probe_tap(kind);
+    let w = any_witness();
+    let g = snap(&mut t, w);
+    t.stop();
+    let s = snap(&mut t, w);
+    kani::assert(s.state == TapeState::Stop, "c12.stop.stops");
+    kani::assert(s.level == g.level, "c12.stop.ear_frozen");
+    let adv: u8 = kani::any();
+    kani::assume(adv <= 2);
+    let mut i = 0;
+    while i < adv {
+        let r = t.process_clocks(kani::any());
+        kani::assert(r.is_ok(), "c12.stop.advance_ok");
+        i += 1;
+    }
+    let k: u8 = kani::any();
+    kani::assume(k >= 1 && k <= 3);
+    let mut j = 0;
+    while j < k {
+        t.play();
+        j += 1;
+    }
+    let post = snap(&mut t, w);
+    kani::assert(same_generator(&g, &post), "c12.resume.exactly_where_it_stopped");
+    kani::assert(post.pos == 0, "c12.resume.asset_not_touched");
+    kani::cover!(adv == 2 && k == 3, "two advances, three plays");
+    g
+}
+
+// @harness
+// @prop C12
+// @tier quick
+// @timeout 300
+// @fn Tap::stop; Tap::play; Tap::process_clocks
+// @sym playing deck in an arbitrary generator state G (each non-Stop variant with any payload, delay, level, byte, stream fields, arbitrary stale prev_state), k plays (1..=3), up to 2 time steps of any length while stopped
+// @assert stop advance* play^k (single stop) restores exactly G: state, delay, level, byte, mask and stream position, without touching the asset; extra plays on a playing deck change nothing
+// @bound one stop, at most 2 advances while stopped, at most 3 plays (unwind 4)
+// @outside repeated stop: c12_stop_twice_* ; time passing between the plays is covered because play on a playing deck is shown to be the identity
+#[kani::proof]
+#[kani::unwind(4)]
+fn c12_stop_play_resumes() {
+    let g = stop_play_case(K_PLAY);
+    kani::cover!(g.delay > 0, "stopped in the pause between blocks");
+    let g = stop_play_case(K_PILOT);
+    kani::cover!(g.delay == 1000, "stopped mid pilot");
+    let _ = stop_play_case(K_SYNC);
+    let _ = stop_play_case(K_NEXT_BYTE);
+    let g = stop_play_case(K_NEXT_BIT);
+    kani::cover!(matches!(g.state, TapeState::NextBit { mask: 0x08 }) && g.delay == 100, "stopped mid byte");
+    let _ = stop_play_case(K_BIT_HALF);
+    let _ = stop_play_case(K_PAUSE);
+}
+
+// @harness
+// @prop C12
+// @tier quick
+// @timeout 300
+// @fn Tap::play
+// @sym deck that has never played or has been rewound (state Stop, no saved state), everything else arbitrary
+// @assert play on a fresh/rewound deck starts the generator at "load next block" (state Play); delay, level and stream position untouched; a second play changes nothing
+// @bound two calls
+#[kani::proof]
+fn c12_play_from_start() {
+    let mut t = any_probe_tap(K_STOP);
+    kani::assume(t.prev_state == TapeState::Stop);
+    let w = any_witness();
+    let pre = snap(&mut t, w);
+    t.play();
+    let post = snap(&mut t, w);
+    let mut exp = pre;
+    exp.state = TapeState::Play;
+    kani::assert(post == exp, "c12.play.fresh_deck_starts_next_block");
+    kani::assert(!t.can_fast_load(), "c12.play.no_fast_load_while_playing");
+    t.play();
+    kani::assert(snap(&mut t, w) == exp, "c12.play.idempotent");
+    kani::cover!(pre.delay == 0 && !pre.level, "fresh tape");
+}
+
+// =================================================================================================
+// C11 (4) whole tiny tapes through the real API: bytes in order, flag and checksum included,
+// every bit MSB first, pause, next block, end of tape
+// =================================================================================================
+
+/// TAP image with the given block lengths (concrete structure, arbitrary contents).
+/// `extra` arbitrary bytes follow the last block (0 = well-formed image).
+fn image(layout: &[usize], extra: usize) -> VBuf {
+    let mut b = VBuf { data: kani::any(), len: 0 };
+    let mut off = 0;
+    let mut i = 0;
+    while i < layout.len() {
+        b.data[off] = layout[i] as u8;
+        b.data[off + 1] = 0;
+        off += 2 + layout[i];
+        i += 1;
+    }
+    b.len = off + extra;
+    b
+}
+
+fn fresh_tap(buf: VBuf) -> VTap {
+    match Tap::from_asset(BufferCursor::new(buf)) {
+        Ok(t) => t,
+        Err(_) => unreachable!(),
+    }
+}
+
+/// Something that contains a tape generator and can be interrupted by deck commands.
+pub(crate) trait Deck {
+    fn tap(&mut self) -> &mut VTap;
+    /// deck commands issued at the interruption point of `expect_block` (default: none)
+    fn interrupt(&mut self) {}
+}
+
+impl Deck for VTap {
+    fn tap(&mut self) -> &mut VTap {
+        self
+    }
+}
+
+/// Let the running pulse elapse: ghost fast-forward to delay = 0.  c11_countdown shows that all
+/// a step does during a pulse is to count delay down (to 0 at the latest after `delay` T-states),
+/// for every partition of the time into steps.
+fn run_out_pulse(t: &mut VTap) {
+    t.delay = 0;
+}
+
+/// the next step must produce an edge and start a pulse of `len` T
+fn expect_edge(t: &mut VTap, len: usize) {
+    run_out_pulse(t);
+    let lvl = t.curr_bit;
+    let r = t.process_clocks(any_step());
+    kani::assert(r.is_ok(), "c11.run.ok");
+    kani::assert(t.curr_bit != lvl, "c11.run.edge");
+    kani::assert(t.delay == len, "c11.run.pulse_length");
+}
+
+/// Drive a playing deck that is about to load the block at image offset `off` (length n >= 1)
+/// through that whole block; returns with the pause running.  `at` = (byte index, bit number)
+/// before whose first pulse ends `Deck::interrupt` is called.
+pub(crate) fn expect_block<D: Deck>(d: &mut D, buf: &VBuf, off: usize, n: usize, at: Option<(usize, u8)>) {
+    let t = d.tap();
+    run_out_pulse(t);
+    let r = t.process_clocks(any_step());
+    let flag = buf.data[off + 2];
+    kani::assert(r.is_ok(), "c11.run.block_loads");
+    kani::assert(t.curr_bit && t.delay == S_PILOT, "c11.run.pilot_starts_high_2168");
+    kani::assert(
+        t.state == TapeState::Pilot { pulses_left: spec_pilot_pulses(flag) },
+        "c11.run.8063_pulses_iff_flag_0_else_3223",
+    );
+    // fast-forward the pilot tone to its last pulse: c11_transitions shows Pilot n -> edge, 2168 T,
+    // Pilot n-1 for every n > 1; an even number of edges is skipped for both counts
+    t.state = TapeState::Pilot { pulses_left: 1 };
+    expect_edge(t, S_SYNC1);
+    expect_edge(t, S_SYNC2);
+    let mut j = 0;
+    while j < n {
+        let b = buf.data[off + 2 + j];
+        let mut bit = 8;
+        while bit > 0 {
+            bit -= 1;
+            if at == Some((j, bit)) {
+                d.interrupt();
+            }
+            let l = spec_bit_len(b, 1u8 << bit);
+            expect_edge(d.tap(), l);
+            expect_edge(d.tap(), l);
+        }
+        j += 1;
+    }
+    let t = d.tap();
+    expect_edge(t, S_PAUSE);
+    kani::assert(t.state == TapeState::Play, "c11.run.next_block_after_pause");
+}
+
+pub(crate) fn expect_end_of_tape(t: &mut VTap) {
+    run_out_pulse(t);
+    let r = t.process_clocks(any_step());
+    kani::assert(r.is_ok(), "c11.run.end_ok");
+    let s = snap(t, 0);
+    kani::assert(s.state == TapeState::Stop, "c11.run.end_stops_deck");
+    kani::assert(!s.level && s.delay == 0, "c11.run.end_level_low");
+    kani::assert(s.pos == 0 && s.cbs.is_none() && s.bbr == 0 && !s.ended, "c11.run.end_back_at_start");
+}
+
+// @harness
+// @prop C11
+// @tier quick
+// @timeout 600
+// @fn Tap::from_asset; Tap::play; Tap::process_clocks; Tap::next_block; Tap::next_block_byte; Tap::rewind; BufferCursor::read; BufferCursor::seek; LoadableAsset::read_exact
+// @sym contents of a one-block image (3 bytes: flag, data, checksum - all arbitrary), the size of every transition step (1..=16)
+// @assert from from_asset + play: pilot (high, 2168 T, 8063 pulses iff flag = 0 else 3223), sync 667 + 735, then for flag, data and checksum byte in this order 8 bits MSB first as two equal pulses of 855 (0) / 1710 (1) T, every pulse started by an edge, then the 3 500 000 T pause, then - no block left - the deck stops with the level low and the position back at the start
+// @bound 1 block x 3 bytes; pilot tone fast-forwarded from the first to the last pulse (induction in c11_transitions); pulse countdown fast-forwarded to delay = 0 (c11_countdown, c11_lateness_step); unwind 9
+#[kani::proof]
+#[kani::unwind(9)]
+fn c11_run_one_block() {
+    let buf = image(&[3], 0);
+    let mut t = fresh_tap(buf);
+    t.play();
+    expect_block(&mut t, &buf, 0, 3, None);
+    expect_end_of_tape(&mut t);
+    kani::cover!(buf.data[2] == 0x00 && buf.data[3] == 0xA5 && buf.data[4] == 0xA5, "header-flag block with valid checksum");
+    kani::cover!(buf.data[2] == 0xFF && buf.data[4] != buf.data[2] ^ buf.data[3], "data block with wrong checksum");
+}
+
+// @harness
+// @prop C11
+// @tier quick
+// @timeout 600
+// @fn Tap::from_asset; Tap::play; Tap::process_clocks; Tap::next_block; Tap::next_block_byte; Tap::rewind; BufferCursor::read; BufferCursor::seek; LoadableAsset::read_exact
+// @sym contents of a two-block image (2 + 1 bytes, arbitrary), transition step sizes
+// @assert both blocks appear in image order, each as pilot / sync / bytes MSB first / pause, the second block's pilot count chosen by ITS flag byte; then the deck stops at the start
+// @bound 2 blocks (2 bytes, 1 byte); pilot fast-forwarded; unwind 9
+#[kani::proof]
+#[kani::unwind(9)]
+fn c11_run_two_blocks() {
+    let buf = image(&[2, 1], 0);
+    let mut t = fresh_tap(buf);
+    t.play();
+    expect_block(&mut t, &buf, 0, 2, None);
+    expect_block(&mut t, &buf, 4, 1, None);
+    expect_end_of_tape(&mut t);
+    kani::cover!(buf.data[2] == 0x00 && buf.data[6] == 0xFF, "header then data block");
+    kani::cover!(buf.data[2] == 0x80 && buf.data[6] == 0x00, "data then header block");
+}
+
+// @harness
+// @prop C11 C15
+// @tier quick
+// @timeout 600
+// @fn Tap::from_asset; Tap::play; Tap::process_clocks; Tap::next_block; Tap::next_block_byte; Tap::rewind; BufferCursor::read; BufferCursor::seek; LoadableAsset::read_exact
+// @sym contents of malformed images: (a) a zero-length block followed by a 1-byte block, (b) a block whose length field (5) exceeds the 2 bytes present, (c) one stray byte after a 1-byte block, (d) the empty image
+// @assert never a panic; (a) the empty block (no flag byte, hence no waveform) yields Err once, the following block is then played normally; (b) Err once, then the deck stops at the start; (c) the stray byte is ignored: end of tape; (d) play on an empty image stops at the first step
+// @bound the four layouts above; unwind 9
+#[kani::proof]
+#[kani::unwind(9)]
+fn c11_run_malformed_images() {
+    // (a)
+    let buf = image(&[0, 1], 0);
+    let mut t = fresh_tap(buf);
+    t.play();
+    let r = t.process_clocks(any_step());
+    kani::assert(r.is_err() && t.state == TapeState::Play && t.delay == 0, "c11.malformed.empty_block_err_and_skipped");
+    expect_block(&mut t, &buf, 2, 1, None);
+    expect_end_of_tape(&mut t);
+    // (b)
+    let mut buf = image(&[5], 0);
+    buf.len = 4;
+    let mut t = fresh_tap(buf);
+    t.play();
+    let r = t.process_clocks(any_step());
+    kani::assert(r.is_err(), "c11.malformed.truncated_block_err");
+    expect_end_of_tape(&mut t);
+    // (c)
+    let buf = image(&[1], 1);
+    let mut t = fresh_tap(buf);
+    t.play();
+    expect_block(&mut t, &buf, 0, 1, None);
+    expect_end_of_tape(&mut t);
+    // (d)
+    let buf = image(&[], 0);
+    let mut t = fresh_tap(buf);
+    t.play();
+    expect_end_of_tape(&mut t);
+    kani::cover!(true, "all four images driven to the end");
+}
+
+// =================================================================================================
+// C12 deck model: command words over {stop, play, rewind, advance c}
+// =================================================================================================
+
+/// Asset of a tape on which nothing more can be read (as at the end of the data, or a host
+/// asset that fails): reads fail, seeks succeed and are remembered.
+pub(crate) struct PosAsset {
+    pub pos: usize,
+}
+
+impl LoadableAsset for PosAsset {
+    fn read(&mut self, _buf: &mut [u8]) -> core::result::Result<usize, crate::error::IoError> {
+        Err(crate::error::IoError::UnexpectedEof)
+    }
+}
+
+impl SeekableAsset for PosAsset {
+    fn seek(&mut self, pos: SeekFrom) -> core::result::Result<usize, crate::error::IoError> {
+        if let SeekFrom::Start(p) = pos {
+            self.pos = p;
+        }
+        Ok(self.pos)
+    }
+}
+
+impl AssetFp for PosAsset {
+    fn fp(&mut self) -> usize {
+        self.pos
+    }
+}
+
+type QTap = Tap<PosAsset>;
+
+/// specification of "the start of the tape, about to play": level low, nothing pending,
+/// position 0, no current block - the state of `from_asset` followed by `play`
+fn to_start(g: &mut Snap) {
+    g.state = TapeState::Play;
+    g.level = false;
+    g.byte = 0;
+    g.delay = 0;
+    g.pos = 0;
+    g.bbr = 0;
+    g.boff = 0;
+    g.cbs = None;
+    g.ended = false;
+}
+
+/// stream fields as `next_block` / `next_block_byte` keep them (shown inductive by c10_stream_inv_*)
+fn inv_stream_fields<A: LoadableAsset + SeekableAsset>(t: &Tap<A>) -> bool {
+    t.buffer_offset <= t.block_bytes_read
+        && t.block_bytes_read - t.buffer_offset <= BUFFER_SIZE
+        && match t.current_block_size {
+            Some(n) => n <= 0xFFFF && t.block_bytes_read <= n,
+            None => t.block_bytes_read == 0 && t.buffer_offset == 0,
+        }
+}
+
+/// in the pause and when the next block is due the previous block has been sent completely
+fn inv_block_done_in_pause<A: LoadableAsset + SeekableAsset>(t: &Tap<A>) -> bool {
+    match t.state {
+        TapeState::Play | TapeState::Pause => match t.current_block_size {
+            Some(n) => t.block_bytes_read == n,
+            None => true,
+        },
+        _ => true,
+    }
+}
+
+const EXCL_NONE: u8 = 0;
+/// a `stop` reaching a deck that is already stopped with a saved state
+const EXCL_STOP_TWICE: u8 = 1;
+/// rewind / end of tape while a saved state from an earlier stop exists
+const EXCL_STALE_SAVED: u8 = 2;
+/// rewind while the generator is in the middle of a block
+const EXCL_REWIND_PLAYING: u8 = 3;
+
+struct DeckModel {
+    a: QTap,       // the deck under test: receives every command
+    g: Snap,       // model: state of the waveform generator (frozen while the model deck is stopped)
+    playing: bool, // model: is the deck playing
+    w: usize,      // witness index into the 128-byte window
+    region: u8,    // EXCL_NONE: follow only words outside all known-finding regions;
+    //                otherwise: only words whose first known-finding region is this one
+    hit: bool,     // the word has entered `region`
+}
+
+/// the word is about to enter known-finding region `r`
+fn enter(m: &mut DeckModel, r: u8) {
+    if !m.hit {
+        // (an assume placed after the commands would not guard the checks inside them)
+        kani::assume(m.region == r);
+        m.hit = true;
+    }
+}
+
+/// deck invariant: a playing deck is exactly in the model generator's state; a stopped deck is
+/// stopped and holds the model generator's level, pending pulse, byte and stream position frozen
+fn deck_inv(m: &mut DeckModel) {
+    let s = snap(&mut m.a, m.w);
+    if m.playing {
+        kani::assert(s.state == m.g.state, "c12.words.playing_deck_is_in_generator_state");
+        kani::assert(same_generator(&s, &m.g), "c12.words.playing_deck_equals_generator");
+    } else {
+        kani::assert(s.state == TapeState::Stop, "c12.words.deck_is_stopped_when_model_says_so");
+        kani::assert(s.level == m.g.level, "c12.words.level_frozen_while_stopped");
+        let mut f = s;
+        f.state = m.g.state;
+        kani::assert(same_generator(&f, &m.g), "c12.words.nothing_consumed_while_stopped");
+    }
+}
+
+fn deck_step(m: &mut DeckModel, enabled: bool) {
+    if !enabled {
+        return;
+    }
+    let cmd: u8 = kani::any();
+    kani::assume(cmd < 4);
+    match cmd {
+        0 => {
+            if !m.playing && m.a.prev_state != TapeState::Stop {
+                enter(m, EXCL_STOP_TWICE);
+            }
+            m.a.stop();
+            m.playing = false;
+        }
+        1 => {
+            m.a.play();
+            m.playing = true;
+        }
+        2 => {
+            if m.playing && m.a.state != TapeState::Play {
+                enter(m, EXCL_REWIND_PLAYING);
+            } else if m.a.prev_state != TapeState::Stop {
+                enter(m, EXCL_STALE_SAVED);
+            }
+            let r = m.a.rewind();
+            kani::assert(r.is_ok(), "c12.words.rewind_ok");
+            // model: position back at the start; a playing deck goes on playing from there
+            to_start(&mut m.g);
+        }
+        _ => {
+            let c: usize = kani::any();
+            let clean = m.a.prev_state == TapeState::Stop;
+            let r = m.a.process_clocks(c);
+            if m.playing {
+                // The deck was in the generator's state (deck_inv after the previous command), so
+                // this real step IS the generator's step (its waveform is the subject of C11).
+                m.g = snap(&mut m.a, m.w);
+                if m.g.state == TapeState::Stop {
+                    // ran off the end: the deck stops by itself and is back at the start
+                    if !clean {
+                        enter(m, EXCL_STALE_SAVED);
+                    }
+                    m.playing = false;
+                    kani::assert(
+                        !m.g.level && m.g.delay == 0 && m.g.pos == 0 && m.g.cbs.is_none() && m.g.bbr == 0 && !m.g.ended,
+                        "c12.words.runout_returns_to_start",
+                    );
+                    to_start(&mut m.g);
+                }
+            } else {
+                kani::assert(r.is_ok(), "c12.words.stopped_advance_ok");
+            }
+        }
+    }
+    deck_inv(m);
+}
+
+/// Run a word of <= 4 commands from an arbitrary playing generator state (or the fresh deck),
+/// checking the deck invariant after every command and after a final play.
+fn deck_words(region: u8, max: u8) {
+    let fresh: bool = kani::any();
+    let mut a: QTap = any_tap_with(PosAsset { pos: kani::any() }, any_kind());
+    kani::assume(a.asset.pos <= 0x20000);
+    kani::assume(a.delay <= S_PAUSE);
+    kani::assume(inv_shape(a.state, a.curr_byte));
+    kani::assume(inv_stream_fields(&a) && inv_block_done_in_pause(&a));
+    let playing;
+    if fresh {
+        // never played, or rewound: stopped at the start without a saved state
+        kani::assume(a.state == TapeState::Stop && a.prev_state == TapeState::Stop);
+        kani::assume(a.asset.pos == 0 && a.current_block_size.is_none() && !a.tape_ended);
+        kani::assume(!a.curr_bit && a.curr_byte == 0 && a.delay == 0);
+        playing = false;
+    } else {
+        // playing, anywhere in the waveform; prev_state holds whatever an earlier stop saved
+        kani::assume(a.state != TapeState::Stop);
+        kani::assume(inv_shape_saved(a.prev_state));
+        playing = true;
+    }
+    let w = any_witness();
+    let mut g = snap(&mut a, w);
+    if fresh {
+        g.state = TapeState::Play;
+    }
+    let mut m = DeckModel { a, g, playing, w, region, hit: false };
+    let n: u8 = kani::any();
+    kani::assume(n <= max);
+    deck_step(&mut m, n >= 1);
+    deck_step(&mut m, n >= 2);
+    deck_step(&mut m, n >= 3);
+    if max >= 4 {
+        deck_step(&mut m, n >= 4);
+    }
+    kani::assume(m.hit == (region != EXCL_NONE));
+    let was_playing = m.playing;
+    // whatever happened: (another) play leaves the deck playing in the generator's state
+    m.a.play();
+    m.playing = true;
+    deck_inv(&mut m);
+    kani::cover!(n == max && !was_playing, "longest word, ends stopped");
+    kani::cover!(n == max && was_playing && !fresh, "longest word, ends playing");
+    kani::cover!(region != EXCL_NONE || (n == 3 && fresh && m.g.state == TapeState::Play), "fresh deck");
+}
+
+// @harness
+// @prop C12
+// @tier quick
+// @timeout 900
+// @fn Tap::stop; Tap::play; Tap::rewind; Tap::process_clocks; Tap::next_block; Tap::next_block_byte
+// @sym initial deck: playing in ANY generator state (every variant and payload under the shape invariant, delay <= 3.5M, level, byte, stream fields, window, arbitrary leftover prev_state) or the fresh deck; a word of 0..=4 commands over {stop, play, rewind, advance c} with c any usize; the tape behind the generator yields no further data (reads fail)
+// @assert deck specification, checked after every command and after a final play: the model keeps the waveform generator's state g (state, delay, level, byte, mask, stream position, window), which advances by the real step only while the model deck plays; stop freezes it, play resumes it, rewind and running off the end replace it by the start state (level low, nothing pending, position 0, next: block 1).  A playing deck must equal g exactly; a stopped deck must be stopped with g's level, pending pulse, byte and position frozen (nothing consumed); hence stop^j advance* play^k restores exactly the pre-stop state and the concatenated playing intervals equal uninterrupted play
+// @bound words of <= 4 commands (+ the final play) from an arbitrary state; longer histories follow because the invariant checked after each command is the induction hypothesis (see also the single-step lemmas c12_stopped_is_frozen / c12_stop_play_resumes / c12_play_from_start / c12_rewind_and_runout_reach_start); unwind 3
+// @assume shape invariant; stream-field invariant inv_stream_fields; block completely sent when in Pause/Play (inv_block_done_in_pause); words that enter a known-finding region are excluded here and checked in c12_words_kf1/2 (both fixed): (KF-C12-1) stop on a deck already stopped with a saved state, (KF-C12-2) rewind or end of tape while prev_state holds a saved state, (outside the claim) rewind while the deck is playing in the middle of a block - the statement constrains the next play after a rewind, and a block cut by a rewind cannot be reproduced anyway
+// @outside successful loading of a following block inside a word (asset reads fail here; covered by c11_run_* and c12_api_*)
+#[kani::proof]
+#[kani::unwind(3)]
+fn c12_words() {
+    deck_words(EXCL_NONE, 4);
+}
+
+// @harness
+// @prop C12
+// @tier quick
+// @expect pass
+// @timeout 900
+// @fn Tap::stop; Tap::play; Tap::rewind; Tap::process_clocks
+// @sym as c12_words, restricted to words whose first known-finding region is a stop on an already stopped deck
+// @assert as c12_words (region of a defect that has been fixed in /repo; formerly: the second stop overwrites the saved state with Stop, the next play starts the NEXT block and the rest of the current block is lost)
+// @bound as c12_words with words of <= 3 commands
+#[kani::proof]
+#[kani::unwind(3)]
+fn c12_words_kf1_stop_twice() {
+    deck_words(EXCL_STOP_TWICE, 3);
+}
+
+// @harness
+// @prop C12
+// @tier quick
+// @expect pass
+// @timeout 900
+// @fn Tap::stop; Tap::play; Tap::rewind; Tap::process_clocks
+// @sym as c12_words, restricted to words whose first known-finding region is a rewind / end of tape while a saved state exists
+// @assert as c12_words (region of a defect that has been fixed in /repo; formerly: prev_state survives rewind and the end of the tape, so the next play resumes an old mid-block state on the rewound stream instead of starting block 1)
+// @bound as c12_words with words of <= 3 commands
+#[kani::proof]
+#[kani::unwind(3)]
+fn c12_words_kf2_stale_saved_state() {
+    deck_words(EXCL_STALE_SAVED, 3);
+}
+
+
+// =================================================================================================
+// C12 lemmas for rewind / end of tape (inductive single steps, any state)
+// =================================================================================================
+
+fn is_start_state(s: &Snap) -> bool {
+    !s.level && s.byte == 0 && s.delay == 0 && s.pos == 0 && s.cbs.is_none() && s.bbr == 0 && s.boff == 0 && !s.ended
+}
+
+// @harness
+// @prop C12
+// @tier quick
+// @timeout 300
+// @fn Tap::rewind; Tap::play; Tap::process_clocks; Tap::next_block
+// @sym (a) stopped deck without a saved state, (b) deck playing in the pause between blocks (state Play, any delay), (c) deck whose pause has elapsed on a tape with no further block (end of tape); everything else arbitrary (level, byte, stream fields, window, asset position)
+// @assert rewind - and running off the end, which also stops the deck - put the level low, clear the pending pulse and the current block and return the stream to position 0 without leaving a saved state; the next play (a no-op on the still playing deck of case b) then stands at "load block 1" (state Play, delay 0), i.e. exactly the state of a fresh deck after play, from which c11_play_first_block / c11_run_* show the clean pilot of block 1 with the full pulse count
+// @bound single commands from arbitrary states; unwind 3
+// @assume no saved state at the time of the rewind / the end of the tape (prev_state = Stop); the complement is the (fixed) finding KF-C12-2 (c12_words_kf2_*, c12_api_kf2_*); rewind while playing inside a block is outside the claim
+#[kani::proof]
+#[kani::unwind(3)]
+fn c12_rewind_and_runout_reach_start() {
+    let w = any_witness();
+    // (a) stopped, no saved state
+    let mut t: QTap = any_tap_with(PosAsset { pos: kani::any() }, K_STOP);
+    kani::assume(t.prev_state == TapeState::Stop);
+    let r = t.rewind();
+    kani::assert(r.is_ok(), "c12.rewind.ok");
+    let s = snap(&mut t, w);
+    kani::assert(is_start_state(&s) && s.state == TapeState::Stop && s.prev == TapeState::Stop, "c12.rewind.stopped_deck_at_start");
+    t.play();
+    let s = snap(&mut t, w);
+    kani::assert(is_start_state(&s) && s.state == TapeState::Play, "c12.rewind.play_starts_block_1");
+    // (b) playing in the pause
+    let mut t: QTap = any_tap_with(PosAsset { pos: kani::any() }, K_PLAY);
+    kani::assume(t.prev_state == TapeState::Stop);
+    let r = t.rewind();
+    kani::assert(r.is_ok(), "c12.rewind.ok");
+    t.play();
+    let s = snap(&mut t, w);
+    kani::assert(is_start_state(&s) && s.state == TapeState::Play && s.prev == TapeState::Stop, "c12.rewind.in_pause_restarts_block_1");
+    // (c) end of tape
+    let mut t: QTap = any_tap_with(PosAsset { pos: kani::any() }, K_PLAY);
+    kani::assume(t.prev_state == TapeState::Stop && t.delay == 0);
+    kani::assume(inv_stream_fields(&t) && inv_block_done_in_pause(&t));
+    let r = t.process_clocks(any_step());
+    kani::assert(r.is_ok(), "c12.runout.ok");
+    let s = snap(&mut t, w);
+    kani::assert(is_start_state(&s) && s.state == TapeState::Stop && s.prev == TapeState::Stop, "c12.runout.stops_at_start");
+    kani::assert(t.can_fast_load(), "c12.runout.deck_stopped");
+    t.play();
+    let s = snap(&mut t, w);
+    kani::assert(is_start_state(&s) && s.state == TapeState::Play, "c12.runout.play_starts_block_1");
+    kani::cover!(true, "all three cases");
+}
+
+// =================================================================================================
+// C12 / C11 through Emulator::{load_tape, play_tape, stop_tape, rewind_tape}, the ZXTape dispatch
+// and ZXController::wait_internal
+// =================================================================================================
+
+use crate::emulator::verif_hooks as emu;
+use crate::emulator::Emulator;
+use crate::verif_hooks::{FbCtx, VHost};
+use crate::zx::machine::ZXMachine;
+use crate::zx::tape::ZXTape;
+use rustzx_z80::Z80Bus;
+
+#[derive(Clone, Copy, PartialEq, Eq)]
+enum Cmds {
+    StopWaitPlay,
+    StopStopPlay,
+    StopRewindPlay,
+    Rewind,
+}
+
+struct EmuDeck {
+    e: Emulator<VHost>,
+    cmds: Cmds,
+}
+
+fn emu_deck(buf: VBuf, cmds: Cmds) -> EmuDeck {
+    let mut e = emu::mk_emulator(ZXMachine::Sinclair48K, FbCtx { wx: 0, wy: 0 });
+    let r = e.load_tape(crate::host::Tape::Tap(BufferCursor::new(buf)));
+    kani::assert(r.is_ok(), "c12.api.load_tape_ok");
+    EmuDeck { e, cmds }
+}
+
+fn tap_in(e: &mut Emulator<VHost>) -> &mut VTap {
+    match &mut emu::controller(e).tape {
+        ZXTape::Tap(t) => t,
+        _ => unreachable!(),
+    }
+}
+
+impl Deck for EmuDeck {
+    fn tap(&mut self) -> &mut VTap {
+        tap_in(&mut self.e)
+    }
+
+    fn interrupt(&mut self) {
+        // part of the running pulse has elapsed: the deck is interrupted mid-pulse (ghost
+        // fast-forward of the countdown, c11_countdown; a concrete value keeps the path concrete)
+        self.tap().delay = 100;
+        let before = snap(self.tap(), 0);
+        match self.cmds {
+            Cmds::StopWaitPlay | Cmds::StopStopPlay | Cmds::StopRewindPlay => {
+                self.e.stop_tape();
+                if self.cmds == Cmds::StopStopPlay {
+                    self.e.stop_tape();
+                }
+                let level = emu::controller(&mut self.e).tape.current_bit();
+                // time passes while stopped (through the ZXTape dispatch)
+                let r = emu::controller(&mut self.e).tape.process_clocks(kani::any());
+                kani::assert(r.is_ok(), "c12.api.ok");
+                let r = emu::controller(&mut self.e).tape.process_clocks(kani::any());
+                kani::assert(r.is_ok(), "c12.api.ok");
+                kani::assert(emu::controller(&mut self.e).tape.current_bit() == level, "c12.api.ear_frozen_while_stopped");
+                kani::assert(emu::controller(&mut self.e).tape.can_fast_load(), "c12.api.stopped");
+                if self.cmds == Cmds::StopRewindPlay {
+                    let r = self.e.rewind_tape();
+                    kani::assert(r.is_ok(), "c12.api.rewind_ok");
+                }
+                self.e.play_tape();
+                self.e.play_tape();
+                if self.cmds == Cmds::StopWaitPlay {
+                    let after = snap(self.tap(), 0);
+                    kani::assert(same_generator(&before, &after), "c12.api.resumes_exactly_where_it_stopped");
+                }
+            }
+            Cmds::Rewind => {
+                let r = self.e.rewind_tape();
+                kani::assert(r.is_ok(), "c12.api.rewind_ok");
+            }
+        }
+    }
+}
+
+// @harness
+// @prop C12 C11
+// @tier quick
+// @timeout 600
+// @fn Emulator::load_tape; Emulator::play_tape; Emulator::stop_tape; Emulator::rewind_tape; ZXTape (enum dispatch of TapeImpl); Tap::from_asset; Tap::stop; Tap::play; Tap::rewind; Tap::process_clocks; Tap::next_block; Tap::next_block_byte; BufferCursor::read; BufferCursor::seek
+// @sym contents of a two-block image (2 + 1 bytes), transition step sizes, the two time steps while stopped (any usize)
+// @assert through the public API: a freshly loaded tape is stopped (level low, nothing happens) until play_tape; stop_tape in the middle of a byte (bit 3 of the second byte, mid-pulse) freezes the level for any elapsed time, play_tape (twice) resumes exactly there, and the waveform decoded over the concatenated playing intervals is still block 1 then block 2 of the image, each byte once, in order; during the pause after the last block, rewind_tape (no stop before: no saved state) makes the deck replay block 1 with the full pilot; then the tape runs out and the deck stops at the start
+// @bound one history on one layout (2 bytes + 1 byte); pilot and pulse countdown fast-forwarded as in c11_run_*; unwind 9
+#[kani::proof]
+#[kani::unwind(9)]
+fn c12_api_stop_resume_rewind() {
+    let buf = image(&[2, 1], 0);
+    let mut d = emu_deck(buf, Cmds::StopWaitPlay);
+    // loaded but not playing: time passes, nothing moves
+    let s0 = snap(d.tap(), 0);
+    let r = emu::controller(&mut d.e).tape.process_clocks(kani::any());
+    kani::assert(r.is_ok() && snap(d.tap(), 0) == s0 && !s0.level && s0.pos == 0, "c12.api.loaded_tape_is_stopped");
+    d.e.play_tape();
+    expect_block(&mut d, &buf, 0, 2, Some((1, 3)));
+    expect_block(&mut d, &buf, 4, 1, None);
+    // in the pause after the last block: rewind while the deck plays (clean: block 1 again)
+    let r = d.e.rewind_tape();
+    kani::assert(r.is_ok(), "c12.api.rewind_ok");
+    expect_block(&mut d, &buf, 0, 2, None);
+    expect_block(&mut d, &buf, 4, 1, None);
+    expect_end_of_tape(d.tap());
+    // the tape has run out: the deck is stopped; play starts block 1 again
+    kani::assert(emu::controller(&mut d.e).tape.can_fast_load(), "c12.api.runout_stops_deck");
+    kani::cover!(buf.data[2] == 0 && buf.data[3] == 0x5A && buf.data[6] == 0xFF, "header-flag block then data-flag block");
+}
+
+// @harness
+// @prop C12
+// @tier quick
+// @expect pass
+// @timeout 600
+// @fn Emulator::play_tape; Emulator::stop_tape; Tap::stop; Tap::play; Tap::process_clocks
+// @sym contents of a one-block image (2 bytes)
+// @assert scenario play_tape, (block 1 up to bit 3 of its second byte), stop_tape, stop_tape, play_tape: the rest of the block must follow (region of a defect that has been fixed in /repo; formerly: rustzx starts looking for the next block instead)
+// @bound one history; unwind 9
+#[kani::proof]
+#[kani::unwind(9)]
+fn c12_api_kf1_stop_stop_play() {
+    let buf = image(&[2], 0);
+    let mut d = emu_deck(buf, Cmds::StopStopPlay);
+    d.e.play_tape();
+    expect_block(&mut d, &buf, 0, 2, Some((1, 3)));
+    kani::cover!(true, "end");
+}
+
+// @harness
+// @prop C12
+// @tier quick
+// @expect pass
+// @timeout 600
+// @fn Emulator::play_tape; Emulator::stop_tape; Emulator::rewind_tape; Tap::stop; Tap::play; Tap::rewind; Tap::process_clocks
+// @sym contents of a one-block image (2 bytes)
+// @assert scenario play_tape, (block 1 up to bit 3 of its second byte), stop_tape, rewind_tape, play_tape: block 1 must now be played from its pilot (region of a defect that has been fixed in /repo; formerly: rustzx resumes the saved mid-byte state on the rewound stream)
+// @bound one history; unwind 9
+#[kani::proof]
+#[kani::unwind(9)]
+fn c12_api_kf2_stop_rewind_play() {
+    let buf = image(&[2], 0);
+    let mut d = emu_deck(buf, Cmds::StopRewindPlay);
+    d.e.play_tape();
+    // run block 1 up to the interruption point, then expect the whole block again
+    expect_block_until(&mut d, &buf, 0, (1, 3));
+    expect_block(&mut d, &buf, 0, 2, None);
+    kani::cover!(true, "end");
+}
+
+
+/// as `expect_block`, but returns right after `Deck::interrupt` at (byte, bit)
+fn expect_block_until<D: Deck>(d: &mut D, buf: &VBuf, off: usize, at: (usize, u8)) {
+    let t = d.tap();
+    run_out_pulse(t);
+    let r = t.process_clocks(any_step());
+    kani::assert(r.is_ok(), "c11.run.block_loads");
+    kani::assert(
+        t.state == TapeState::Pilot { pulses_left: spec_pilot_pulses(buf.data[off + 2]) },
+        "c11.run.8063_pulses_iff_flag_0_else_3223",
+    );
+    t.state = TapeState::Pilot { pulses_left: 1 };
+    expect_edge(t, S_SYNC1);
+    expect_edge(t, S_SYNC2);
+    let mut j = 0;
+    while j <= at.0 {
+        let b = buf.data[off + 2 + j];
+        let mut bit = 8;
+        while bit > 0 {
+            bit -= 1;
+            if (j, bit) == at {
+                d.interrupt();
+                return;
+            }
+            let l = spec_bit_len(b, 1u8 << bit);
+            expect_edge(d.tap(), l);
+            expect_edge(d.tap(), l);
+        }
+        j += 1;
+    }
+}
+
+fn noop_screen_clocks<FB: crate::host::FrameBuffer>(_s: &mut crate::zx::video::screen::ZXScreen<FB>, _clocks: usize) {}
+
+// @harness
+// @prop C11 C12
+// @tier quick
+// @timeout 600
+// @fn ZXController::wait_internal; ZXTape::process_clocks (dispatch); Tap::process_clocks; ZXTape::default; Empty::*
+// @sym tape inside a 48K controller in a symbolic asset-free state (each of Stop, Pilot, Sync, NextBit, BitHalf, Pause with arbitrary delay/level/byte), bus wait of c in 1..=16 T-states
+// @assert wait_internal(c) feeds exactly c T-states to the tape: afterwards the tape equals a twin advanced by process_clocks(c), no emulation error is recorded; the controller's default tape (Empty) ignores time and every deck command, reads low, never fast-loads and yields no block
+// @bound one wait per state variant; unwind 3
+// @stub ZXScreen::process_clocks -> no-op (video is not the subject)
+// @replay solver-only
+#[kani::proof]
+#[kani::unwind(3)]
+#[kani::stub(crate::zx::video::screen::ZXScreen::process_clocks, noop_screen_clocks)]
+fn c11_wait_internal_feeds_tape() {
+    let mut c = crate::zx::controller::verif_hooks::mk_controller(ZXMachine::Sinclair48K, FbCtx { wx: 0, wy: 0 }, false, false);
+    // default tape: Empty
+    c.tape.play();
+    c.tape.stop();
+    kani::assert(c.tape.rewind().is_ok() && c.tape.process_clocks(kani::any()).is_ok(), "c12.empty.commands_ok");
+    kani::assert(!c.tape.current_bit() && !c.tape.can_fast_load(), "c12.empty.silent_no_fast_load");
+    kani::assert(matches!(c.tape.next_block(), Ok(false)) && matches!(c.tape.next_block_byte(), Ok(None)), "c12.empty.no_blocks");
+    c.wait_internal(any_step());
+    kani::assert(!crate::zx::controller::verif_hooks::has_error(&c), "c12.empty.no_error");
+    wait_case(&mut c, K_STOP);
+    wait_case(&mut c, K_PILOT);
+    wait_case(&mut c, K_SYNC);
+    wait_case(&mut c, K_NEXT_BIT);
+    wait_case(&mut c, K_BIT_HALF);
+    wait_case(&mut c, K_PAUSE);
+    kani::cover!(true, "end");
+}
+
+fn wait_case(c: &mut crate::zx::controller::ZXController<VHost>, kind: u8) {
+    let empty = VBuf { data: [0; 24], len: 0 };
+    let t: VTap = any_tap_with(BufferCursor::new(empty), kind);
+    kani::assume(inv_shape(t.state, t.curr_byte));
+    let mut twin: VTap = Tap {
+        asset: BufferCursor::new(empty),
+        state: t.state,
+        prev_state: t.prev_state,
+        buffer: t.buffer,
+        buffer_offset: t.buffer_offset,
+        block_bytes_read: t.block_bytes_read,
+        current_block_size: t.current_block_size,
+        tape_ended: t.tape_ended,
+        curr_bit: t.curr_bit,
+        curr_byte: t.curr_byte,
+        delay: t.delay,
+    };
+    c.tape = ZXTape::Tap(t);
+    c.frame_clocks = 100;
+    let step = any_step();
+    c.wait_internal(step);
+    let r = twin.process_clocks(step);
+    kani::assert(r.is_ok(), "c11.wait.twin_ok");
+    kani::assert(!crate::zx::controller::verif_hooks::has_error(c), "c11.wait.no_error");
+    let w = any_witness();
+    let got = match &mut c.tape {
+        ZXTape::Tap(t) => snap(t, w),
+        _ => unreachable!(),
+    };
+    kani::assert(got == snap(&mut twin, w), "c11.wait.tape_advanced_by_exactly_c");
+    kani::assert(c.tape.current_bit() == twin.curr_bit, "c11.wait.ear_is_generator_level");
+}
+
+// =================================================================================================
+// C10 (3) byte stream: next_block / next_block_byte hand out exactly the block's bytes
+// =================================================================================================
+
+/// A block of `l` arbitrary bytes at offset 2 of a 320-byte array (larger than VBuf) behind a
+/// real `BufferCursor`, the tape standing right behind `next_block` (window filled with the first
+/// min(l,128) bytes, cursor behind them).  The length field is not parsed here: bytes copied out
+/// of an array of more than 64 elements are no constants for the solver's symbolic execution, a
+/// block length that is not constant makes every copy a symbolic-size memcpy (measured: > 10 GB
+/// for l = 0, 1, 2).  Parsing of the length field: c10_stream_inv_next_block (all lengths),
+/// c11_run_* / c10_loader_* (real cursor, short blocks).
+fn refill_case(l: usize) {
+    let data: [u8; 320] = kani::any();
+    let first = if l < BUFFER_SIZE { l } else { BUFFER_SIZE };
+    let mut asset = BufferCursor::new(&data[..l + 2]);
+    let mut buffer = [0u8; BUFFER_SIZE];
+    let _ = asset.seek(SeekFrom::Start(2));
+    let r = asset.read_exact(&mut buffer[0..first]);
+    kani::assert(r.is_ok(), "c10.refill.setup");
+    let mut t = Tap {
+        asset,
+        state: TapeState::Stop,
+        prev_state: TapeState::Stop,
+        buffer,
+        buffer_offset: 0,
+        block_bytes_read: 0,
+        current_block_size: Some(l),
+        tape_ended: false,
+        curr_bit: false,
+        curr_byte: 0,
+        delay: 0,
+    };
+    let mut i = 0;
+    while i < l {
+        let r = t.next_block_byte();
+        kani::assert(matches!(r, Ok(Some(x)) if x == data[2 + i]), "c10.refill.bytes_in_order");
+        i += 1;
+    }
+    kani::assert(matches!(t.next_block_byte(), Ok(None)), "c10.refill.none_after_last_byte");
+    kani::assert(matches!(t.next_block_byte(), Ok(None)), "c10.refill.none_is_sticky");
+    kani::assert(t.asset.fp() == l + 2, "c10.refill.cursor_behind_block");
+    // no further block: end of tape, repeatedly
+    kani::assert(matches!(t.next_block(), Ok(false)), "c10.refill.end_of_tape");
+    kani::assert(matches!(t.next_block(), Ok(false)), "c10.refill.end_is_sticky");
+}
+
+// @harness
+// @prop C10 C15
+// @tier quick
+// @timeout 600
+// @fn Tap::next_block_byte; Tap::next_block; BufferCursor::read; BufferCursor::seek; LoadableAsset::read_exact
+// @sym contents of a block of 127, 128, 129 bytes behind a real BufferCursor (the 128-byte window exactly not filled / filled / exceeded by one)
+// @assert next_block_byte hands out exactly the block's bytes in order across the window refill, then None (repeatedly); the cursor ends right behind the block; next_block then reports the end of the tape (repeatedly)
+// @bound lengths 127, 128, 129; unwind 131; length field not parsed (see refill_case)
+#[kani::proof]
+#[kani::unwind(131)]
+fn c10_stream_len_127_128_129() {
+    refill_case(127);
+    refill_case(128);
+    refill_case(129);
+    kani::cover!(true, "end");
+}
+
+// @harness
+// @prop C10 C15
+// @tier quick
+// @timeout 900
+// @fn Tap::next_block_byte; Tap::next_block; BufferCursor::read; BufferCursor::seek; LoadableAsset::read_exact
+// @sym contents of a block of 255, 256, 257 bytes (second window boundary)
+// @assert as c10_stream_len_127_128_129
+// @bound lengths 255, 256, 257; unwind 259
+#[kani::proof]
+#[kani::unwind(259)]
+fn c10_stream_len_255_256_257() {
+    refill_case(255);
+    refill_case(256);
+    refill_case(257);
+    kani::cover!(true, "end");
+}
+
+// @harness
+// @prop C10 C15
+// @tier thorough
+// @timeout 1800
+// @fn Tap::next_block_byte; Tap::next_block; BufferCursor::read; BufferCursor::seek; LoadableAsset::read_exact
+// @sym contents of a block of 300 bytes (three windows)
+// @assert as c10_stream_len_127_128_129
+// @bound length 300; unwind 302
+#[kani::proof]
+#[kani::unwind(302)]
+fn c10_stream_len_300() {
+    refill_case(300);
+    kani::cover!(true, "end");
+}
+
+/// Tiny blocks with their length fields, through the real cursor over a VBuf (<= 24 bytes, whose
+/// elements the solver tracks individually): [block of l bytes][block of 1 byte].
+fn small_stream_case(l: usize, take: usize) {
+    let buf = image(&[l, 1], 0);
+    let mut t = fresh_tap(buf);
+    kani::assert(matches!(t.next_block_byte(), Ok(None)), "c10.stream.no_byte_before_first_block");
+    kani::assert(matches!(t.next_block(), Ok(true)), "c10.stream.first_block_found");
+    let mut i = 0;
+    while i < take {
+        let r = t.next_block_byte();
+        kani::assert(matches!(r, Ok(Some(x)) if x == buf.data[2 + i]), "c10.stream.bytes_in_order");
+        i += 1;
+    }
+    if take == l {
+        kani::assert(matches!(t.next_block_byte(), Ok(None)), "c10.stream.none_after_last_byte");
+        kani::assert(matches!(t.next_block_byte(), Ok(None)), "c10.stream.none_is_sticky");
+    }
+    // the following block starts right behind this one, whatever was left unread
+    kani::assert(matches!(t.next_block(), Ok(true)), "c10.stream.second_block_found");
+    let r = t.next_block_byte();
+    kani::assert(matches!(r, Ok(Some(x)) if x == buf.data[l + 4]), "c10.stream.second_block_at_right_offset");
+    kani::assert(matches!(t.next_block_byte(), Ok(None)), "c10.stream.second_block_has_one_byte");
+    kani::assert(matches!(t.next_block(), Ok(false)), "c10.stream.end_of_tape");
+    kani::assert(matches!(t.next_block_byte(), Ok(None)), "c10.stream.nothing_after_end");
+    kani::assert(matches!(t.next_block(), Ok(false)), "c10.stream.end_is_sticky");
+}
+
+// @harness
+// @prop C10 C15
+// @tier quick
+// @timeout 300
+// @fn Tap::from_asset; Tap::next_block; Tap::next_block_byte; BufferCursor::read; LoadableAsset::read_exact
+// @sym contents of a block of 0, 1, 2 or 5 bytes and of the following 1-byte block
+// @assert next_block + next_block_byte* yields exactly the block's bytes in order, then None (repeatedly); the next block is found at the right offset whether the first one was read completely, partly or not at all; after it the tape ends (false, repeatedly)
+// @bound lengths 0, 1, 2, 5; unwind 7
+#[kani::proof]
+#[kani::unwind(7)]
+fn c10_stream_len_0_1_2() {
+    small_stream_case(0, 0);
+    small_stream_case(1, 1);
+    small_stream_case(2, 2);
+    small_stream_case(2, 0);
+    small_stream_case(5, 5);
+    small_stream_case(5, 2);
+    kani::cover!(true, "end");
+}
+
+// ---- the same for every block length 0..=65535 and every position: one inductive step -----------
+
+/// Asset of arbitrary length of which only one byte is tracked: position `wp` holds `wb`.
+/// A read delivers arbitrary bytes in the first two places (block length fields are read with
+/// 2-byte reads, so every length value is possible) and the tracked byte where it falls into the
+/// read range; the other delivered bytes are irrelevant to the claims checked through the witness.
+pub(crate) struct WitAsset {
+    pub pos: usize,
+    pub len: usize,
+    pub wp: usize,
+    pub wb: u8,
+}
+
+impl LoadableAsset for WitAsset {
+    fn read(&mut self, buf: &mut [u8]) -> core::result::Result<usize, crate::error::IoError> {
+        if self.pos >= self.len {
+            return Err(crate::error::IoError::UnexpectedEof);
+        }
+        let n = buf.len().min(self.len - self.pos);
+        if n >= 1 {
+            buf[0] = kani::any();
+        }
+        if n >= 2 {
+            buf[1] = kani::any();
+        }
+        if self.wp >= self.pos && self.wp - self.pos < n {
+            buf[self.wp - self.pos] = self.wb;
+        }
+        self.pos += n;
+        Ok(n)
+    }
+}
+
+impl SeekableAsset for WitAsset {
+    fn seek(&mut self, pos: SeekFrom) -> core::result::Result<usize, crate::error::IoError> {
+        if let SeekFrom::Start(p) = pos {
+            self.pos = p;
+        }
+        Ok(self.pos)
+    }
+}
+
+const MAX_ASSET: usize = 0x40000;
+
+/// Stream representation invariant for a current block whose data start at asset position `s`
+/// and whose length is `n`: the window covers block offsets [boff, boff+128), the cursor stands
+/// behind the window (or the block), and the window holds the asset's bytes - stated for the
+/// tracked byte.
+fn inv_stream(t: &Tap<WitAsset>, s: usize, n: usize) -> bool {
+    let boff = t.buffer_offset;
+    let bbr = t.block_bytes_read;
+    let win_end = if n - boff.min(n) > BUFFER_SIZE { boff + BUFFER_SIZE } else { n };
+    let a = &t.asset;
+    t.current_block_size == Some(n)
+        && !t.tape_ended
+        && n <= 0xFFFF
+        && boff % BUFFER_SIZE == 0
+        && boff <= bbr
+        && bbr <= n
+        && bbr - boff <= BUFFER_SIZE
+        && (boff < n || boff == 0)
+        && a.pos == s + win_end
+        && a.pos <= a.len
+        && (!(a.wp >= s + boff && a.wp < s + win_end) || t.buffer[a.wp - s - boff] == a.wb)
+}
+
+fn any_wit_tap() -> (Tap<WitAsset>, usize, usize) {
+    let a = WitAsset { pos: kani::any(), len: kani::any(), wp: kani::any(), wb: kani::any() };
+    kani::assume(a.len <= MAX_ASSET && a.wp < a.len);
+    let (s, n): (usize, usize) = (kani::any(), kani::any());
+    kani::assume(s >= 2 && s <= MAX_ASSET && n <= 0xFFFF);
+    let mut t: Tap<WitAsset> = any_tap_with(a, K_STOP);
+    t.tape_ended = false;
+    kani::assume(inv_stream(&t, s, n));
+    (t, s, n)
+}
+
+// @harness
+// @prop C10 C15
+// @tier quick
+// @timeout 600
+// @fn Tap::next_block_byte; LoadableAsset::read_exact
+// @sym block length n in 0..=65535, block start s, block position (bytes already read, window offset), window contents, asset length (the block may be truncated), one tracked asset byte (position wp, value wb)
+// @assert one call of next_block_byte from any state satisfying the stream invariant: at the end of the block it returns None and changes nothing; otherwise it returns the byte at block offset k = bytes read so far - which is the asset's byte at s+k (checked when s+k is the tracked position) - advances by one and re-establishes the invariant, refilling the window at every multiple of 128; if the asset ends inside the block the refill reports Err; no panic, no overflow.  By induction: next_block_byte* hands out asset[s..s+n] in order, then None, for every block length
+// @bound single step, all lengths; read_exact rounds <= 2 (unwind 3)
+// @assume stream invariant inv_stream (established by c10_stream_inv_next_block, preserved here)
+#[kani::proof]
+#[kani::unwind(3)]
+fn c10_stream_inv_next_byte() {
+    let (mut t, s, n) = any_wit_tap();
+    let k = t.block_bytes_read;
+    let boff0 = t.buffer_offset;
+    let pos0 = t.asset.pos;
+    let r = t.next_block_byte();
+    match r {
+        Ok(None) => {
+            kani::assert(k == n, "c10.inv.none_only_at_block_end");
+            kani::assert(t.block_bytes_read == k && t.buffer_offset == boff0 && t.asset.pos == pos0, "c10.inv.none_changes_nothing");
+        }
+        Ok(Some(x)) => {
+            kani::assert(k < n, "c10.inv.byte_only_inside_block");
+            kani::assert(t.block_bytes_read == k + 1, "c10.inv.advances_by_one");
+            if s + k == t.asset.wp {
+                kani::assert(x == t.asset.wb, "c10.inv.byte_is_asset_byte_at_block_offset");
+            }
+            kani::assert(inv_stream(&t, s, n), "c10.inv.preserved");
+        }
+        Err(_) => {
+            // only a refill can fail, and only when the asset is shorter than the block
+            kani::assert(k < n && k == boff0 + BUFFER_SIZE && t.asset.len < s + n, "c10.inv.err_only_for_truncated_block");
+        }
+    }
+    kani::cover!(matches!(r, Ok(Some(_))) && k == 128 && n == 129, "refill for the last byte of a 129-byte block");
+    kani::cover!(matches!(r, Ok(Some(_))) && k == 65534 && n == 65535, "last byte of the longest block");
+    kani::cover!(matches!(r, Ok(None)) && n == 256 && k == 256, "end of a 256-byte block");
+    kani::cover!(matches!(r, Ok(Some(_))) && s + k == t.asset.wp && k == 300, "tracked byte in the third window");
+    kani::cover!(r.is_err(), "truncated block");
+}
+
+// @harness
+// @prop C10 C15
+// @tier quick
+// @timeout 600
+// @fn Tap::next_block; Tap::next_block_byte; LoadableAsset::read_exact
+// @sym as c10_stream_inv_next_byte, with the current block completely read (or no current block: fresh / rewound tape); the next two asset bytes (length field of the following block) arbitrary
+// @assert next_block from the end of a block: with fewer than 2 bytes left the tape has ended (false, and again false, bytes None); otherwise the 16-bit little-endian length n' is taken, the new block's data start 2 bytes further, the window holds its first min(n',128) bytes (tracked byte checked) and the stream invariant holds for (s+n+2, n'); a block cut short by the end of the asset reports Err; no panic, no overflow.  Together with c10_stream_inv_next_byte (the skip loop of next_block is next_block_byte*): every next_block finds exactly the next block
+// @bound single call from an exhausted block; unwind 3
+// @assume stream invariant inv_stream with bytes read = n
+#[kani::proof]
+#[kani::unwind(3)]
+fn c10_stream_inv_next_block() {
+    let fresh: bool = kani::any();
+    let (mut t, s, n) = any_wit_tap();
+    let h; // position of the next length field
+    if fresh {
+        t.current_block_size = None;
+        t.block_bytes_read = 0;
+        t.buffer_offset = 0;
+        t.asset.pos = 0;
+        h = 0;
+    } else {
+        kani::assume(t.block_bytes_read == n);
+        h = s + n;
+    }
+    let left = t.asset.len - h;
+    let r = t.next_block();
+    match r {
+        Ok(false) => {
+            kani::assert(left < 2, "c10.inv.end_only_without_length_field");
+            kani::assert(matches!(t.next_block_byte(), Ok(None)), "c10.inv.no_bytes_after_end");
+            kani::assert(matches!(t.next_block(), Ok(false)), "c10.inv.end_is_sticky");
+        }
+        Ok(true) => {
+            kani::assert(left >= 2, "c10.inv.block_needs_length_field");
+            let n2 = match t.current_block_size {
+                Some(x) => x,
+                None => usize::MAX,
+            };
+            kani::assert(n2 <= 0xFFFF && t.block_bytes_read == 0 && t.buffer_offset == 0, "c10.inv.new_block_at_offset_0");
+            kani::assert(inv_stream(&t, h + 2, n2), "c10.inv.established_for_next_block");
+        }
+        Err(_) => {
+            kani::assert(left >= 2, "c10.inv.err_only_for_truncated_block");
+        }
+    }
+    kani::cover!(matches!(r, Ok(true)) && t.current_block_size == Some(0), "zero-length block");
+    kani::cover!(matches!(r, Ok(true)) && t.current_block_size == Some(65535), "longest block");
+    kani::cover!(matches!(r, Ok(true)) && !fresh && n == 300 && t.asset.wp == h + 2 + 5, "tracked byte in the new window");
+    kani::cover!(matches!(r, Ok(false)) && left == 1, "stray byte at the end");
+    kani::cover!(r.is_err(), "truncated block");
+    kani::cover!(matches!(r, Ok(true)) && fresh, "first block of a fresh tape");
+}
+
+// =================================================================================================
+// C11 (4) for every block length and position: the asset-touching transitions, inductively
+// =================================================================================================
+
+// @harness
+// @prop C11 C15
+// @tier quick
+// @timeout 600
+// @fn Tap::process_clocks; Tap::next_block_byte; LoadableAsset::read_exact
+// @sym generator at the end of the last bit of a byte (state NextByte, delay 0), level and old byte arbitrary; current block of any length n in 0..=65535 at any position k (stream invariant), asset possibly truncated; one tracked asset byte; step c in 1..=16
+// @assert in the same call (edge asserted): if bytes remain, the NEXT byte of the block - the asset's byte at block offset k, checked on the tracked byte - becomes the byte being sent, starting with bit 7: first half pulse of 855/1710 T by its most significant bit, state BitHalf(mask 0x80); the stream advances by exactly one byte and the stream invariant is kept, across window refills; after the last byte (k = n) the pause of 3 500 000 T starts and the next block is due (state Play), the stream untouched; a truncated block yields Err; no panic / overflow
+// @bound single step = induction over every byte of every block length; unwind 3
+// @assume stream invariant inv_stream
+#[kani::proof]
+#[kani::unwind(3)]
+fn c11_next_byte_any_block() {
+    let (mut t, s, n) = any_wit_tap();
+    t.state = TapeState::NextByte;
+    t.delay = 0;
+    let k = t.block_bytes_read;
+    let lvl = t.curr_bit;
+    let old = t.curr_byte;
+    let r = t.process_clocks(any_step());
+    if r.is_ok() {
+        kani::assert(t.curr_bit != lvl, "c11.byte.edge_in_same_call");
+        if k < n {
+            let b = t.curr_byte;
+            if s + k == t.asset.wp {
+                kani::assert(b == t.asset.wb, "c11.byte.bytes_in_order");
+            }
+            let l = spec_bit_len(b, 0x80);
+            kani::assert(t.state == TapeState::BitHalf { half_bit_delay: l, mask: 0x80 } && t.delay == l, "c11.byte.msb_first");
+            kani::assert(t.block_bytes_read == k + 1 && inv_stream(&t, s, n), "c11.byte.stream_advances_by_one");
+        } else {
+            kani::assert(t.state == TapeState::Play && t.delay == S_PAUSE, "c11.byte.pause_after_last_byte");
+            kani::assert(t.curr_byte == old && t.block_bytes_read == k && inv_stream(&t, s, n), "c11.byte.stream_untouched_in_pause");
+        }
+    } else {
+        kani::assert(k < n && t.asset.len < s + n, "c11.byte.err_only_for_truncated_block");
+    }
+    kani::cover!(r.is_ok() && k == 0 && n == 19 && t.delay == S_ONE, "flag byte of a header block, msb set");
+    kani::cover!(r.is_ok() && k == 128 && n == 6914, "first byte of the second window of a screen-sized block");
+    kani::cover!(r.is_ok() && k + 1 == n && n == 65535 && s + k == t.asset.wp, "checksum byte of the longest block, tracked");
+    kani::cover!(r.is_ok() && k == n && n == 0, "pause after an empty block");
+    kani::cover!(r.is_err(), "truncated block");
+}
+
+// @harness
+// @prop C11 C15
+// @tier quick
+// @timeout 600
+// @fn Tap::process_clocks; Tap::next_block; Tap::next_block_byte; Tap::rewind; LoadableAsset::read_exact
+// @sym generator with the pause elapsed (state Play, delay 0), level, old byte and prev_state arbitrary; previous block of any length completely sent (or fresh / rewound tape); following asset bytes arbitrary (any length field, possibly truncated); one tracked asset byte; step c in 1..=16
+// @assert the next block of the image starts: level high, 2168 T, pilot counter 8063 iff the block's first byte (tracked) is 0x00 else 3223, that flag byte is the byte that will be sent first after the sync pulses, the stream stands at the block's second byte and the stream invariant holds for the new block; with fewer than 2 bytes left the deck stops with the level low and the stream back at position 0; an empty (length 0) or truncated block yields Err and never a panic
+// @bound single step from any exhausted block, all block lengths; unwind 3
+// @assume stream invariant inv_stream with all bytes sent (the only way into Play, c11_next_byte_any_block)
+// @outside first pilot pulse: may merge with the pause level (no edge asserted), as the property allows
+#[kani::proof]
+#[kani::unwind(3)]
+fn c11_play_any_block() {
+    let fresh: bool = kani::any();
+    let (mut t, s, n) = any_wit_tap();
+    let h;
+    if fresh {
+        t.current_block_size = None;
+        t.block_bytes_read = 0;
+        t.buffer_offset = 0;
+        t.asset.pos = 0;
+        h = 0;
+    } else {
+        kani::assume(t.block_bytes_read == n);
+        h = s + n;
+    }
+    t.state = TapeState::Play;
+    t.delay = 0;
+    let left = t.asset.len - h;
+    let prev = t.prev_state;
+    let r = t.process_clocks(any_step());
+    if r.is_ok() {
+        if left < 2 {
+            kani::assert(t.state == TapeState::Stop && !t.curr_bit && t.delay == 0, "c11.play.end_stops_deck_level_low");
+            kani::assert(
+                t.asset.pos == 0 && t.current_block_size.is_none() && t.block_bytes_read == 0 && t.buffer_offset == 0 && !t.tape_ended,
+                "c11.play.end_position_at_start",
+            );
+        } else {
+            let n2 = match t.current_block_size {
+                Some(x) => x,
+                None => 0,
+            };
+            let flag = t.curr_byte;
+            kani::assert(n2 >= 1 && inv_stream(&t, h + 2, n2) && t.block_bytes_read == 1, "c11.play.stream_at_second_byte_of_next_block");
+            if t.asset.wp == h + 2 {
+                kani::assert(flag == t.asset.wb, "c11.play.flag_byte_is_first_byte_of_block");
+            }
+            kani::assert(t.curr_bit && t.delay == S_PILOT, "c11.play.pilot_starts_high_2168");
+            kani::assert(t.state == TapeState::Pilot { pulses_left: spec_pilot_pulses(flag) }, "c11.play.8063_pulses_iff_flag_0_else_3223");
+            kani::assert(t.prev_state == prev, "c11.play.saved_state_untouched");
+        }
+    } else {
+        kani::assert(left >= 2 && t.state == TapeState::Play, "c11.play.err_only_for_empty_or_truncated_block");
+    }
+    kani::cover!(r.is_ok() && left >= 2 && t.curr_byte == 0 && t.current_block_size == Some(19), "header block");
+    kani::cover!(r.is_ok() && left >= 2 && t.curr_byte == 0xFF && t.current_block_size == Some(65535) && !fresh, "longest data block after another block");
+    kani::cover!(r.is_ok() && left == 1, "stray byte: end of tape");
+    kani::cover!(r.is_err() && t.current_block_size == Some(0), "empty block: Err");
+    kani::cover!(r.is_ok() && fresh && left >= 2, "first block of a fresh tape");
+}
